@@ -234,3 +234,15 @@ func concurrentMarshals(p *plenc.Plenc, vals []reflect.Value, refs [][]byte, sam
 	wg.Wait()
 	return fail
 }
+
+// describe asks p for the Descriptor of t's codec (types with a finite descriptor only, known
+// finding D20): a schema query is read-only - it must not change how the instance encodes or
+// decodes afterwards
+func describe(p *plenc.Plenc, t reflect.Type) {
+	if isRecursive(t) {
+		return
+	}
+	if cd, err := p.CodecForType(t); err == nil {
+		core.Guard(func() { _ = cd.Descriptor() })
+	}
+}
